@@ -1821,17 +1821,23 @@ impl IdmServerProxyWriteTransaction<'_> {
     fn check_password_quality(
         &mut self,
         cleartext: &str,
+        pw_min_length: u32,
+        pw_max_length: u32,
         related_inputs: &[&str],
     ) -> Result<(), OperationError> {
-        // password strength and badlisting is always global, rather than per-pw-policy.
-        // pw-policy as check on the account is about requirements for mfa for example.
-        if cleartext.len() < PW_SFA_MIN_LENGTH_NIST as usize {
+        // A unix password is a single factor: never below the single factor minimum, and never
+        // below what the account's policy asks for. Lengths are counted as the credential
+        // update session counts them.
+        let pw_min_length = pw_min_length.max(PW_SFA_MIN_LENGTH_NIST);
+        let pw_max_length = pw_max_length.min(PW_MAX_LENGTH_NIST);
+        let pw_len = crate::utils::utf8_len(cleartext);
+        if pw_len < pw_min_length as usize {
             return Err(OperationError::PasswordQuality(vec![
-                PasswordFeedback::TooShort(PW_SFA_MIN_LENGTH_NIST),
+                PasswordFeedback::TooShort(pw_min_length),
             ]));
-        } else if cleartext.len() > PW_MAX_LENGTH_NIST as usize {
+        } else if pw_len > pw_max_length as usize || cleartext.len() > PW_MAX_LENGTH_NIST as usize * 4 {
             return Err(OperationError::PasswordQuality(vec![
-                PasswordFeedback::TooLong(PW_MAX_LENGTH_NIST),
+                PasswordFeedback::TooLong(pw_max_length),
             ]));
         };
 
@@ -1959,13 +1965,13 @@ impl IdmServerProxyWriteTransaction<'_> {
         &mut self,
         pce: &UnixPasswordChangeEvent,
     ) -> Result<(), OperationError> {
-        // Get the account
-        let account = self
+        // Get the account and the policy that applies to it
+        let (account, resolved_account_policy) = self
             .qs_write
             .internal_search_uuid(pce.target)
             .and_then(|account_entry| {
                 // Assert the account is unix and valid.
-                Account::try_from_entry_rw(&account_entry, &mut self.qs_write)
+                Account::try_from_entry_with_policy(&account_entry, &mut self.qs_write)
             })
             .map_err(|e| {
                 admin_error!("Failed to start set unix account password {:?}", e);
@@ -2023,7 +2029,12 @@ impl IdmServerProxyWriteTransaction<'_> {
         // If we got here, then pre-apply succeeded, and that means access control
         // passed. Now we can do the extra checks.
 
-        self.check_password_quality(pce.cleartext.as_str(), account.related_inputs().as_slice())
+        self.check_password_quality(
+            pce.cleartext.as_str(),
+            resolved_account_policy.pw_min_length(),
+            resolved_account_policy.pw_max_length(),
+            account.related_inputs().as_slice(),
+        )
             .map_err(|e| {
                 admin_error!(?e, "Failed to checked password quality");
                 e
